@@ -12,7 +12,14 @@ Extracted (all from the Python ast, fail-closed):
 The graph uses positions in the rebuild order as view numbers (that is how SM/LazyLumps.v identifies views) and
 BSP_LUMPS values as lump numbers (game lumps: 64 + k).  Anything unrecognised (aliasing `self.lumps`, passing
 `self` to another function, getattr, a non-constant lump index, an unknown attribute of self) raises
-TranslateError.  Branches guarded by `self.is_vitamin` belong to the VitaminSource layout; a store that is skipped
+TranslateError.  Also extracted:
+  * the statement order of `ParsedLump.__get__` (every path through the body as a sequence of events: reader call,
+    materialisation of a generator result, store into `_parsed_lumps`, store into a lump's `.data`) and the loop
+    shape of `BSP.save` (does the rebuild loop walk LUMP_REBUILD_ORDER itself and test/pop the cache at every
+    position, or a list of cached views computed beforehand) -> `bsp_shape : shape` and the path listing;
+  * how every writer / reader USES the views it looks at: read-only (iteration, indexing, len ...) or appending
+    (`find_or_insert(self.view)`, `find_or_extend`, `.append`, `.extend`) or otherwise mutating -> `bsp_view_uses`.
+Branches guarded by `self.is_vitamin` belong to the VitaminSource layout; a store that is skipped
 only by an early `if self.is_vitamin: return` is counted as unconditional and reported in the side info.
 """
 from __future__ import annotations
@@ -139,6 +146,8 @@ class _Module:
         out = {'views': {}, 'raw_reads': {}, 'stores': [], 'helpers': []}
         seen: set[str] = set()
 
+        param_alias: dict[str, dict[str, str]] = {}     # callee -> parameter name -> view handed in
+
         def visit_func(name: str, ctx: tuple[str, ...]) -> None:
             if name in seen:
                 return
@@ -146,6 +155,37 @@ class _Module:
             fn = self.methods[name]
             if name != fname:
                 out['helpers'].append(name)
+            # local names / parameters that ARE a view: `x = self.view`, or a view handed in by the caller
+            alias = dict(param_alias.get(name, {}))
+            defs: set[int] = set()
+            for n in ast.walk(fn):
+                if isinstance(n, (ast.Assign, ast.AnnAssign)) and n.value is not None and _is_self_attr(n.value) \
+                        and n.value.attr in self.views:
+                    tg = n.targets if isinstance(n, ast.Assign) else [n.target]
+                    if len(tg) == 1 and isinstance(tg[0], ast.Name):
+                        if alias.get(tg[0].id, n.value.attr) != n.value.attr:
+                            raise TranslateError(f'bsp.py BSP.{name}:{n.lineno}: {tg[0].id} names two different views')
+                        alias[tg[0].id] = n.value.attr
+                        defs.add(id(tg[0]))
+            par = _parents(fn)
+            for n in ast.walk(fn):
+                if isinstance(n, ast.Call) and _is_self_attr(n.func) and n.func.attr in self.methods:
+                    callee = self.methods[n.func.attr]
+                    params = [a.arg for a in callee.args.args[1:]]
+                    for k, a in enumerate(n.args):
+                        v = a.attr if (_is_self_attr(a) and a.attr in self.views) else (alias.get(a.id) if isinstance(a, ast.Name) else None)
+                        if v is not None:
+                            if k >= len(params) or n.func.attr in seen and param_alias.get(n.func.attr, {}).get(params[k]) != v:
+                                raise TranslateError(f'bsp.py BSP.{name}:{n.lineno}: view handed to self.{n.func.attr} in an untracked way')
+                            param_alias.setdefault(n.func.attr, {})[params[k]] = v
+                if isinstance(n, ast.Name) and n.id in alias and id(n) not in defs:
+                    if not isinstance(n.ctx, ast.Load):
+                        raise TranslateError(f'bsp.py BSP.{name}:{n.lineno}: {n.id} (a view) is rebound')
+                    k = _classify_use(n, par)
+                    if k == 'alias':
+                        raise TranslateError(f'bsp.py BSP.{name}:{n.lineno}: view alias {n.id} aliased again')
+                    if k != 'param':
+                        out.setdefault('uses', []).append((alias[n.id], k, n.lineno))
             self._walk_body(fn.body, ctx, out, visit_func, f'bsp.py BSP.{name}')
 
         if fname not in self.methods:
@@ -195,6 +235,7 @@ class _Module:
     def _expr(self, node: ast.AST, ctx: tuple[str, ...], out: dict, visit_func, where: str) -> None:
         """Classify every use of `self` inside an expression or simple statement."""
         consumed: set[int] = set()
+        par = _parents(node)
         for n in ast.walk(node):
             # self.lumps[K].data / self.game_lumps[K].data
             if isinstance(n, ast.Attribute) and isinstance(n.value, ast.Subscript) and _is_self_attr(n.value.value) \
@@ -225,6 +266,9 @@ class _Module:
                     if not isinstance(n.ctx, ast.Load):
                         raise TranslateError(f'{where}:{n.lineno}: lump function assigns view self.{a}')
                     out['views'].setdefault(a, n.lineno)
+                    k = _classify_use(n, par)
+                    if k not in ('alias', 'param'):
+                        out.setdefault('uses', []).append((a, k, n.lineno))
                 elif a in self.methods:
                     visit_func(a, ctx)
                 elif a in ('lumps', 'game_lumps', '_parsed_lumps', '_save_funcs', '__dict__', '__class__'):
@@ -240,6 +284,341 @@ class _Module:
                 raise TranslateError(f'{where}:{n.lineno}: dynamic attribute access ({n.id})')
             if isinstance(n, ast.Lambda):
                 pass   # bodies are walked by ast.walk above
+
+
+APPENDERS = {'find_or_insert', 'find_or_extend'}            # binformat helpers: only ever append to the list they wrap
+APPEND_METHODS = {'append', 'extend'}
+MUTATE_METHODS = {'insert', 'pop', 'remove', 'clear', 'sort', 'reverse', 'update', 'add', 'discard', 'setdefault',
+                  'popitem', '__setitem__', '__delitem__', 'writestr', 'write'}
+PURE_FUNCS = {'len', 'enumerate', 'iter', 'list', 'tuple', 'sorted', 'reversed', 'zip', 'set', 'frozenset', 'dict', 'bool',
+              'min', 'max', 'sum', 'any', 'all', 'map', 'filter', 'range', 'isinstance', 'id', 'repr', 'str', 'next'}
+
+
+def _parents(root: ast.AST) -> dict[int, ast.AST]:
+    par: dict[int, ast.AST] = {}
+    for p in ast.walk(root):
+        for c in ast.iter_child_nodes(p):
+            par[id(c)] = p
+    return par
+
+
+def _classify_use(n: ast.Attribute, par: dict[int, ast.AST]) -> str:
+    """How an occurrence `self.<view>` is used: 'read', 'append', 'mutate' or 'escape' (handed to unknown code)."""
+    p = par.get(id(n))
+    if isinstance(p, ast.Call) and n in p.args and _is_self_attr(p.func):
+        return 'param'              # handed to another BSP method: followed through the parameter (effects.visit_func)
+    if isinstance(p, (ast.Assign, ast.AnnAssign)) and p.value is n:
+        tg = p.targets if isinstance(p, ast.Assign) else [p.target]
+        if len(tg) == 1 and isinstance(tg[0], ast.Name):
+            return 'alias'          # `name = self.view`: the uses of `name` are classified instead
+    if isinstance(p, ast.Call) and n in p.args:
+        f = p.func
+        fname = f.id if isinstance(f, ast.Name) else (f.attr if isinstance(f, ast.Attribute) else None)
+        if fname in APPENDERS:
+            return 'append'
+        if fname in PURE_FUNCS:
+            return 'read'
+        return 'escape'
+    if isinstance(p, ast.Call) and any(k.value is n for k in p.keywords):
+        return 'escape'
+    if isinstance(p, ast.Attribute) and p.value is n:
+        pp = par.get(id(p))
+        if isinstance(pp, ast.Call) and pp.func is p:
+            if p.attr in APPEND_METHODS:
+                return 'append'
+            if p.attr in MUTATE_METHODS:
+                return 'mutate'
+            return 'read'           # .index(), .items(), .get(), .namelist() ...
+        if isinstance(p.ctx, (ast.Store, ast.Del)):
+            return 'mutate'
+        return 'read'
+    if isinstance(p, ast.Subscript) and p.value is n:
+        return 'mutate' if isinstance(p.ctx, (ast.Store, ast.Del)) else 'read'
+    if isinstance(p, (ast.Assign, ast.AnnAssign, ast.NamedExpr, ast.Return, ast.Yield, ast.YieldFrom, ast.Starred,
+                      ast.List, ast.Tuple, ast.Dict, ast.Set)):
+        return 'escape'             # aliased: later uses are not tracked
+    if isinstance(p, ast.AugAssign) and p.target is n:
+        return 'mutate'
+    return 'read'                   # for-iteration, comparison, boolean test, comprehension source, f-string ...
+
+
+# ---------------------------------------------------------------------------------- __get__ / save shape
+def _paths(stmts: list[ast.stmt], ev_of, where: str) -> list[tuple[list, bool]]:
+    """Every path through a statement list as (events, terminated)."""
+    paths: list[tuple[list, bool]] = [([], False)]
+
+    def seq(cur, more):
+        out = []
+        for ev, done in cur:
+            if done:
+                out.append((ev, True))
+            else:
+                for ev2, done2 in more:
+                    out.append((ev + ev2, done2))
+        if len(out) > 4096:
+            raise TranslateError(f'{where}: too many paths')
+        return out
+
+    for st in stmts:
+        if isinstance(st, ast.If):
+            alt = seq([(ev_of(st.test), False)], _paths(st.body, ev_of, where) + _paths(st.orelse, ev_of, where))
+        elif isinstance(st, (ast.For, ast.While)):
+            head = ev_of(st.iter) if isinstance(st, ast.For) else ev_of(st.test)
+            loopvar = [('bind', ast.unparse(st.target), ast.unparse(st.iter))] if isinstance(st, ast.For) else []
+            body = seq([(head + loopvar, False)], _paths(st.body, ev_of, where))
+            body = [(ev + [('unbind',)], d) for ev, d in body]
+            alt = seq(body, _paths(st.orelse, ev_of, where))
+            if not (isinstance(st, ast.For) and getattr(ev_of, 'nonempty', lambda it: False)(st.iter)):
+                alt += seq([(head, False)], _paths(st.orelse, ev_of, where))    # zero iterations
+        elif isinstance(st, ast.Try):
+            ok = seq(_paths(st.body, ev_of, where), _paths(st.orelse, ev_of, where))
+            alt = list(ok)
+            for h in st.handlers:       # the handler runs after any prefix of the body: approximate by "instead of it"
+                alt += _paths(h.body, ev_of, where)
+            alt = seq([(e, False) for e, d in alt if not d], _paths(st.finalbody, ev_of, where)) + [(e, d) for e, d in alt if d]
+        elif isinstance(st, ast.With):
+            head = [e for it in st.items for e in ev_of(it.context_expr)]
+            alt = seq([(head, False)], _paths(st.body, ev_of, where))
+        elif isinstance(st, (ast.Return, ast.Raise)):
+            alt = [(ev_of(st), True)]
+        elif isinstance(st, (ast.FunctionDef, ast.ClassDef, ast.AsyncFunctionDef, ast.Match)):
+            raise TranslateError(f'{where}:{st.lineno}: nested def/class/match')
+        else:
+            alt = [(ev_of(st), False)]
+        paths = seq(paths, alt)
+    return paths
+
+
+def _get_shape(tree: ast.Module) -> dict:
+    """Statement order of ParsedLump.__get__: on every path, is a lump's raw data stored (cleared) before the reader
+    has run, its generator result has been materialised and the value has been put into the cache?"""
+    cls = next((n for n in tree.body if isinstance(n, ast.ClassDef) and n.name == 'ParsedLump'), None)
+    fn = None
+    for f in (cls.body if cls else []):
+        if isinstance(f, ast.FunctionDef) and f.name == '__get__':
+            fn = f                      # the last definition (after the @overload stubs) wins
+    if fn is None:
+        raise TranslateError('ParsedLump.__get__ not found')
+    where = f'bsp.py ParsedLump.__get__'
+    inst = fn.args.args[1].arg
+    alias: dict[str, str] = {}          # local name -> 'main' (an alias of the main Lump / GameLump object)
+
+    def lump_kind(idx: ast.AST, bound: dict[str, str]) -> str:
+        if _is_self_attr(idx, 'lump'):
+            return 'main'
+        if isinstance(idx, ast.Name) and bound.get(idx.id) in ('self.to_clear',):
+            return 'all'
+        if isinstance(idx, ast.Name) and bound.get(idx.id) in ('self.to_clear[1:]',):
+            return 'extra'
+        raise TranslateError(f'{where}:{idx.lineno}: lump index {ast.unparse(idx)} is neither self.lump nor an element of self.to_clear')
+
+    def is_lump_obj(x: ast.AST) -> bool:
+        return (isinstance(x, ast.Subscript) and isinstance(x.value, ast.Attribute) and isinstance(x.value.value, ast.Name)
+                and x.value.value.id == inst and x.value.attr in ('lumps', 'game_lumps'))
+
+    for n in ast.walk(fn):              # aliases of lump objects
+        if isinstance(n, ast.Assign) and len(n.targets) == 1 and isinstance(n.targets[0], ast.Name) and is_lump_obj(n.value):
+            if not _is_self_attr(n.value.slice, 'lump'):
+                raise TranslateError(f'{where}:{n.lineno}: alias of a lump other than self.lump')
+            alias[n.targets[0].id] = 'main'
+
+    def ev_of(node: ast.AST) -> list:
+        loads, stores = [], []
+        for n in ast.walk(node):
+            if isinstance(n, ast.Call):
+                f = n.func
+                if _is_self_attr(f, '_read'):
+                    loads.append(('parse', n.lineno))
+                elif isinstance(f, ast.Name) and f.id in ('list', 'tuple') and len(n.args) == 1 and isinstance(n.args[0], ast.Name):
+                    loads.append(('materialise', n.lineno))
+            if isinstance(n, ast.Attribute) and n.attr == 'data' and isinstance(n.ctx, (ast.Store, ast.Del)):
+                if is_lump_obj(n.value):
+                    stores.append(('clear', n.lineno, n.value.slice))
+                elif isinstance(n.value, ast.Name) and n.value.id in alias:
+                    stores.append(('clear', n.lineno, 'main'))
+                else:
+                    raise TranslateError(f'{where}:{n.lineno}: store to .data of an unrecognised object: {ast.unparse(n)}')
+            if isinstance(n, ast.Subscript) and isinstance(n.ctx, ast.Store) and isinstance(n.value, ast.Attribute) \
+                    and n.value.attr == '_parsed_lumps':
+                stores.append(('cache', n.lineno))
+            if isinstance(n, ast.Attribute) and n.attr == '_parsed_lumps' and isinstance(n.ctx, (ast.Store, ast.Del)):
+                raise TranslateError(f'{where}:{n.lineno}: _parsed_lumps replaced')
+            if isinstance(n, ast.Call) and isinstance(n.func, ast.Attribute) and isinstance(n.func.value, ast.Attribute) \
+                    and n.func.value.attr == '_parsed_lumps' and n.func.attr not in ('get', '__getitem__', '__contains__'):
+                raise TranslateError(f'{where}:{n.lineno}: _parsed_lumps.{n.func.attr}() in __get__')
+        return loads + stores           # the right-hand side is evaluated before the targets are stored
+
+    ev_of.nonempty = lambda it: _is_self_attr(it, 'to_clear')       # (lump, *extra): never empty
+    paths = _paths(fn.body, ev_of, where)
+    early_main = early_extra = False
+    uncached = False
+    listing = []
+    for evs, _ in paths:
+        bound: dict[str, str] = {}
+        stack: list[str] = []
+        kinds = []
+        for e in evs:
+            if e[0] == 'bind':
+                stack.append(e[1])
+                bound[e[1]] = e[2]
+            elif e[0] == 'unbind':
+                bound.pop(stack.pop(), None)
+            elif e[0] == 'clear':
+                kinds.append('clear-' + (e[2] if isinstance(e[2], str) else lump_kind(e[2], bound)))
+            else:
+                kinds.append(e[0])
+        if 'parse' not in kinds and not any(k.startswith('clear') for k in kinds) and 'cache' not in kinds:
+            continue                    # class access / cached value / TypeError paths
+        if kinds not in listing:
+            listing.append(kinds)
+        # only the reader call and the materialisation of a generator result can raise; the position of the cache store
+        # relative to the clears cannot be observed (nothing in between raises), so it is not constrained
+        last_needed = max([i for i, k in enumerate(kinds) if k in ('parse', 'materialise')], default=-1)
+        if 'parse' in kinds and ('cache' not in kinds or kinds.index('cache') < max(i for i, k in enumerate(kinds) if k in ('parse', 'materialise'))):
+            uncached = True
+        if 'cache' not in kinds or 'parse' not in kinds:
+            last_needed = len(kinds)    # a clear on a path that never caches a parsed value loses the data
+        for i, k in enumerate(kinds):
+            if k.startswith('clear') and i < last_needed:
+                if k in ('clear-main', 'clear-all'):
+                    early_main = True
+                if k in ('clear-extra', 'clear-all'):
+                    early_extra = True
+    if not listing:
+        raise TranslateError(f'{where}: no path with a reader call found')
+    clears_all = all(any(k in ('clear-all',) for k in ks) or ({'clear-main', 'clear-extra'} <= set(ks)) for ks in listing if 'cache' in ks)
+    return {'early_main': early_main, 'early_extra': early_extra, 'parse_uncached': uncached, 'paths': listing,
+            'clears_to_clear_after_caching': clears_all}
+
+
+def _save_shape(m: '_Module') -> dict:
+    """Loop shape of BSP.save: the rebuild loop must walk LUMP_REBUILD_ORDER and consult the cache inside the loop."""
+    fn = m.methods.get('save')
+    if fn is None:
+        raise TranslateError('BSP.save not found')
+    where = 'bsp.py BSP.save'
+    loops = [st for st in fn.body if isinstance(st, ast.For)
+             and any(isinstance(n, ast.Attribute) and n.attr == '_save_funcs' for n in ast.walk(st))]
+    others = [n for n in ast.walk(fn) if isinstance(n, ast.Attribute) and n.attr == '_save_funcs']
+    if len(loops) != 1 or any(not any(o is n for n in ast.walk(loops[0])) for o in others):
+        raise TranslateError(f'{where}: expected exactly one top-level for-loop that calls self._save_funcs[...]')
+    loop = loops[0]
+    if not isinstance(loop.target, ast.Name) or loop.orelse:
+        raise TranslateError(f'{where}:{loop.lineno}: loop target is not a plain name')
+    var = loop.target.id
+
+    def mentions(node: ast.AST, name: str) -> bool:
+        return any((isinstance(n, ast.Name) and n.id == name) or (isinstance(n, ast.Attribute) and n.attr == name)
+                   for n in ast.walk(node))
+
+    it = loop.iter
+    if isinstance(it, ast.Call) and isinstance(it.func, ast.Name) and it.func.id in ('list', 'tuple') and len(it.args) == 1:
+        it = it.args[0]
+    if isinstance(it, ast.Name) and it.id == 'LUMP_REBUILD_ORDER':
+        snapshot = False
+    else:
+        # resolve a local name to the expression(s) assigned to it before the loop
+        exprs = [it]
+        if isinstance(it, ast.Name):
+            exprs = [st.value for st in fn.body if isinstance(st, (ast.Assign, ast.AnnAssign)) and st.lineno < loop.lineno
+                     and st.value is not None
+                     and any(isinstance(t, ast.Name) and t.id == it.id for t in (st.targets if isinstance(st, ast.Assign) else [st.target]))]
+        if not exprs or not all(mentions(e, 'LUMP_REBUILD_ORDER') for e in exprs):
+            raise TranslateError(f'{where}:{loop.lineno}: the rebuild loop does not iterate over LUMP_REBUILD_ORDER: {ast.unparse(loop.iter)}')
+        if not any(mentions(e, '_parsed_lumps') for e in exprs):
+            raise TranslateError(f'{where}:{loop.lineno}: rebuild loop over an unrecognised derivative of LUMP_REBUILD_ORDER')
+        snapshot = True                 # a list of the cached views computed before the loop
+    # inside the loop: the cache is popped for the loop variable before the writer runs, the result is stored
+    pops, calls, stores = [], [], []
+    for n in ast.walk(loop):
+        if isinstance(n, ast.Call) and isinstance(n.func, ast.Attribute) and n.func.attr == 'pop' \
+                and isinstance(n.func.value, ast.Attribute) and n.func.value.attr == '_parsed_lumps':
+            if not (n.args and isinstance(n.args[0], ast.Name) and n.args[0].id == var):
+                raise TranslateError(f'{where}:{n.lineno}: pop of something other than the loop variable')
+            pops.append(n.lineno)
+        if isinstance(n, ast.Delete) and any(mentions(t, '_parsed_lumps') for t in n.targets):
+            pops.append(n.lineno)
+        if isinstance(n, ast.Call) and isinstance(n.func, ast.Subscript) and mentions(n.func.value, '_save_funcs'):
+            calls.append(n.lineno)
+        if isinstance(n, ast.Attribute) and n.attr == 'data' and isinstance(n.ctx, ast.Store):
+            ok = isinstance(n.value, ast.Subscript) and _is_self_attr(n.value.value) and n.value.value.attr in ('lumps', 'game_lumps') \
+                and isinstance(n.value.slice, ast.Name) and n.value.slice.id == var
+            if not ok:
+                raise TranslateError(f'{where}:{n.lineno}: the rebuild loop stores into {ast.unparse(n)}')
+            stores.append(n.value.value.attr)
+    if len(calls) != 1 or not pops:
+        raise TranslateError(f'{where}:{loop.lineno}: rebuild loop without exactly one writer call and a pop of the cache')
+    if min(pops) > calls[0]:
+        raise TranslateError(f'{where}:{loop.lineno}: the view is popped after its writer ran (not the modelled order)')
+    if set(stores) != {'lumps', 'game_lumps'}:
+        raise TranslateError(f'{where}:{loop.lineno}: writer result is not stored into both self.lumps[..] and self.game_lumps[..]: {stores}')
+    # nothing else in save touches the cache
+    for n in ast.walk(fn):
+        if isinstance(n, ast.Attribute) and n.attr == '_parsed_lumps' and not any(n is x for x in ast.walk(loop)) \
+                and not snapshot:
+            raise TranslateError(f'{where}:{n.lineno}: _parsed_lumps used outside the rebuild loop')
+    return {'snapshot': snapshot, 'loop_line': loop.lineno, 'iter': ast.unparse(loop.iter)}
+
+
+def _container_layout(m: '_Module') -> dict:
+    """Constants of the file container: LUMP_COUNT, GAME_LUMP, PAKFILE, LUMP_WRITE_ORDER (interpreted statement by
+    statement), the two version numbers BSP.read / BSP.save branch on, and the struct formats of header and directory."""
+    order: list[str] | None = None
+    fmts: dict[str, str] = {}
+    versions: dict[str, int] = {}
+    st_fmt = None
+    for n in m.tree.body:
+        if isinstance(n, (ast.Assign, ast.AnnAssign)):
+            tg = n.targets[0] if isinstance(n, ast.Assign) and len(n.targets) == 1 else getattr(n, 'target', None)
+            if isinstance(tg, ast.Name) and tg.id == 'LUMP_WRITE_ORDER':
+                v = n.value
+                if not (isinstance(v, ast.Call) and isinstance(v.func, ast.Name) and v.func.id == 'list' and len(v.args) == 1
+                        and isinstance(v.args[0], ast.Name) and v.args[0].id == 'BSP_LUMPS'):
+                    raise TranslateError(f'bsp.py:{n.lineno}: LUMP_WRITE_ORDER is not list(BSP_LUMPS)')
+                order, seen_vals = [], set()        # Enum iteration: definition order, aliases (repeated values) skipped
+                for k, val in m.lump_vals.items():
+                    if val not in seen_vals:
+                        seen_vals.add(val)
+                        order.append(k)
+            if isinstance(tg, ast.Name) and tg.id in ('HEADER_1', 'HEADER_LUMP', 'HEADER_2'):
+                if not (isinstance(n.value, ast.Constant) and isinstance(n.value.value, str)):
+                    raise TranslateError(f'bsp.py:{n.lineno}: {tg.id} is not a string literal')
+                fmts[tg.id] = n.value.value
+        elif isinstance(n, ast.Expr) and isinstance(n.value, ast.Call) and isinstance(n.value.func, ast.Attribute) \
+                and isinstance(n.value.func.value, ast.Name) and n.value.func.value.id == 'LUMP_WRITE_ORDER':
+            if order is None or len(n.value.args) != 1:
+                raise TranslateError(f'bsp.py:{n.lineno}: LUMP_WRITE_ORDER used before its definition')
+            key = m.lump_key(n.value.args[0], f'bsp.py:{n.lineno}')[2:]
+            key = next(k for k in order + [key] if m.lump_vals[k] == m.lump_vals[key])     # canonical member of an alias group
+            if n.value.func.attr == 'remove':
+                order.remove(key)
+            elif n.value.func.attr == 'append':
+                order.append(key)
+            else:
+                raise TranslateError(f'bsp.py:{n.lineno}: LUMP_WRITE_ORDER.{n.value.func.attr}() not recognised')
+        elif isinstance(n, ast.ClassDef) and n.name == 'VERSIONS':
+            for st in n.body:
+                if isinstance(st, ast.Assign) and len(st.targets) == 1 and isinstance(st.targets[0], ast.Name) \
+                        and isinstance(st.value, ast.Constant) and isinstance(st.value.value, int):
+                    versions[st.targets[0].id] = st.value.value
+        elif isinstance(n, ast.ClassDef) and n.name == 'GameLump':
+            for st in n.body:
+                tg = st.target if isinstance(st, ast.AnnAssign) else (st.targets[0] if isinstance(st, ast.Assign) else None)
+                if isinstance(tg, ast.Name) and tg.id == 'ST':
+                    v = st.value
+                    if not (isinstance(v, ast.Call) and len(v.args) == 1 and isinstance(v.args[0], ast.Constant)):
+                        raise TranslateError(f'bsp.py:{st.lineno}: GameLump.ST not recognised')
+                    st_fmt = v.args[0].value
+    for node in ast.walk(m.tree):       # no other mutation of the write order
+        if isinstance(node, ast.Subscript) and isinstance(node.value, ast.Name) and node.value.id == 'LUMP_WRITE_ORDER' \
+                and isinstance(node.ctx, (ast.Store, ast.Del)):
+            raise TranslateError(f'bsp.py:{node.lineno}: LUMP_WRITE_ORDER is mutated')
+    if order is None or set(fmts) != {'HEADER_1', 'HEADER_LUMP', 'HEADER_2'} or st_fmt is None \
+            or 'L4D2' not in versions or 'VITAMINSOURCE' not in versions:
+        raise TranslateError('container constants (LUMP_WRITE_ORDER, HEADER_*, GameLump.ST, VERSIONS) not all found')
+    return {'nlumps': max(m.lump_vals.values()) + 1, 'gidx': m.lump_vals['GAME_LUMP'], 'pak': m.lump_vals['PAKFILE'],
+            'worder': [m.lump_vals[k] for k in order], 'l4d2': versions['L4D2'], 'vitamin': versions['VITAMINSOURCE'],
+            'formats': [fmts['HEADER_1'], fmts['HEADER_LUMP'], fmts['HEADER_2'], st_fmt]}
 
 
 def _has_return(body: list[ast.stmt]) -> bool:
@@ -283,6 +662,8 @@ def translate() -> tuple[str, dict]:
     all_stores: list[tuple[int, int]] = []
     cond_stores: list[tuple[int, int, str]] = []
     side_views = {}
+    view_uses: list[tuple[str, int, int, str, int]] = []
+    reader_stores: list[tuple[int, int, int]] = []
     for i, v in enumerate(view_at):
         if v is None:
             decls.append(([], [], [], []))
@@ -307,8 +688,13 @@ def translate() -> tuple[str, dict]:
                 all_stores.append((i, num))
             else:
                 cond_stores.append((i, num, ' & '.join(ctx)))
+        for key, _, line in rd['stores']:
+            reader_stores.append((i, m.lump_num(key), line))
         for key in list(rd['raw_reads']) + list(wr['raw_reads']):
             raw_reads.append((i, m.lump_num(key)))
+        for who, eff in (('reader', rd), ('writer', wr)):
+            for used, kind, line in eff.get('uses', []):
+                view_uses.append((who, i, vnum(used, v), kind, line))
         decls.append((own, rdeps, wdeps, wstore))
         side_views[v] = {
             'position': i, 'main': m.views[v][0], 'extra': m.views[v][1],
@@ -322,12 +708,24 @@ def translate() -> tuple[str, dict]:
     def nl(xs) -> str:
         return '[' + '; '.join(str(x) for x in xs) + ']'
 
+    lay = _container_layout(m)
+    gshape = _get_shape(m.tree)
+    sshape = _save_shape(m)
+    KIND = {'read': 0, 'append': 1, 'mutate': 2, 'escape': 3}
+
+    def uses(who: str) -> str:
+        trip = sorted({(a, b, KIND[k]) for w, a, b, k, _ in view_uses if w == who})
+        return '[' + '; '.join(f'({a}, {b}, {k})' for a, b, k in trip) + ']'
+
+    def cb(b: bool) -> str:
+        return 'true' if b else 'false'
+
     names = {m.lump_num('L:' + k): k for k in sorted(m.lump_vals, key=lambda k: (m.lump_vals[k], k))[::-1]}
     for c in m.consts:
         names[m.lump_num('G:' + c)] = 'game:' + m.consts[c].decode('ascii', 'replace')
     lines = [
         '(* GENERATED by translate/c10_bspgraph.py from src/srctools/bsp.py. Do not edit. *)',
-        'From Coq Require Import List String.', 'From SV Require Import SM.LazyLumps.', 'Import ListNotations.',
+        'From Coq Require Import NArith List String.', 'From SV Require Import SM.LazyLumps Fmt.BspContainer.', 'Import ListNotations.',
         'Open Scope string_scope.',
         '(* views in LUMP_REBUILD_ORDER; view number = position *)',
         'Definition bsp_view_names : list string := [' + '; '.join(f'"{v or "-"}"' for v in view_at) + '].',
@@ -347,9 +745,25 @@ def translate() -> tuple[str, dict]:
         'Definition bsp_stores : list (nat * nat) := [' + '; '.join(f'({a}, {b})' for a, b in sorted(set(all_stores))) + '].',
         '(* stores executed only under a data-dependent condition: (view, lump) *)',
         'Definition bsp_cond_stores : list (nat * nat) := [' + '; '.join(f'({a}, {b})' for a, b in sorted({(a, b) for a, b, _ in cond_stores})) + '].',
+        '(* statement order of ParsedLump.__get__ (paths: ' + '; '.join(' '.join(ks) for ks in gshape['paths']) + ')',
+        f'   and loop shape of BSP.save (line {sshape["loop_line"]}: for ... in {sshape["iter"]}) *)',
+        f'Definition bsp_shape : shape := mkShape {cb(gshape["early_main"])} {cb(gshape["early_extra"])} {cb(sshape["snapshot"])}.',
+        f'Definition bsp_get_parse_uncached : bool := {cb(gshape["parse_uncached"])}.',
+        f'Definition bsp_get_clears_to_clear_after_caching : bool := {cb(gshape["clears_to_clear_after_caching"])}.',
+        '(* constants of the file container *)',
+        f'Definition bsp_layout : layout := mkLay {lay["nlumps"]} {lay["gidx"]} {lay["pak"]} {nl(lay["worder"])} {lay["l4d2"]}%N {lay["vitamin"]}%N.',
+        'Definition bsp_container_formats : list string := [' + '; '.join(f'"{x}"' for x in lay['formats']) + '].',
+        '(* lump data stored by a READER (a reader that empties a lump itself does so before __get__ has cached the value) *)',
+        'Definition bsp_reader_stores : list (nat * nat) := [' + '; '.join(f'({a}, {b})' for a, b, _ in sorted(set(reader_stores))) + '].',
+        '(* how readers / writers use the views they look at: (view, used view, 0 read | 1 append | 2 mutate | 3 escape) *)',
+        'Definition bsp_reader_uses : list (nat * nat * nat) := ' + uses('reader') + '.',
+        'Definition bsp_writer_uses : list (nat * nat * nat) := ' + uses('writer') + '.',
         '',
     ]
     side = {
+        'get_shape': gshape, 'save_shape': sshape, 'container_layout': lay,
+        'reader_stores': [[view_at[a], names[b], ln] for a, b, ln in sorted(set(reader_stores))],
+        'view_uses': [[w, view_at[a], (view_at[b] if b < len(view_at) else '?'), k, ln] for w, a, b, k, ln in sorted(set(view_uses))],
         'order': order, 'views': side_views, 'not_in_order': not_in_order, 'order_without_view': order_without_view,
         'cond_stores': [[view_at[a], names[b], c] for a, b, c in cond_stores],
         'graph': [list(map(list, d)) for d in decls], 'view_at': view_at,
